@@ -286,6 +286,7 @@ int main()
 
 
 META = dict(
+    technique='CBMC 6.11 function + loop contracts (dfcc) with ghost-index sequence specifications (FlatMap, unbounded); interface stubs (typed reads); bounded unwinding against exact specifications for the parameter list and a replayable erase variant',
     level="proof",
     level_text="FlatMap<int,int>'s lookup (both overloads), at (x2), operator[], contains, at_index (x2), size, empty, clear and the begin/end family are extracted from /repo and proved by CBMC function contracts for maps of ANY size (up to 2^40 entries): lookup returns the first entry with the key or end (loop contract on the std::find_if reference model), at throws std::out_of_range exactly when no entry has the key and otherwise returns the value slot of the first such entry, operator[] returns the slot of an entry with the key, leaves a present key's map unchanged, appends an absent key last with a value-initialised value while every earlier entry keeps its position and value, and keeps keys unique; at_index(i) is entry i in insertion order or out_of_range. Facts about all entries are proved at arbitrary ghost positions (verif_gi, verif_gj). erase is proved for maps of ANY size with loop contracts on a ghost-instrumented reference model of std::stable_partition: every entry without the key survives (at the recorded destination), survivors keep their relative order, every remaining entry is an old entry without the key (angelic ghost source), sources increase, no entry with the key remains, the size is the number kept, keys stay unique; the same operation is ALSO checked, for replayable counterexamples, by an exact bounded variant (maps of at most 4 entries quick / 6 thorough, loops unwound) against 'the result is the order-preserving filter of the old entries'.",
     level_note="fm_erase#bounded is a bounded stand-in kept for native replay; the proof of erase is the unbounded fm_erase (265 s, CaDiCaL). std::vector is a value-tracking MODEL whose reallocation step is an assumed contract instantiated at the ghost positions; std::find_if/std::stable_partition/std::partition are reference models (C code). Only the FlatMap<int,int> instantiation; the key reference must not point into the map's own storage (precondition). ParameterizedObject: the typed-read / query-flag logic of getParam<int|float>, hasParam and setParam<int> IS proved (unit c10_params) against interface stubs for findParam and utility::Any (is<T>/get<T>/operator=): a missing or wrongly typed parameter yields the default and leaves the query flag alone, an exactly typed one returns the value and marks it queried, setParam asks findParam to create and does not mark queried. findParam (first match / add-if-missing appends one fresh unqueried parameter / null), removeParam (removes the first match, the others keep their order, nothing else changes) and resetAllParamQueryStatus are checked by BOUNDED exact contracts (unit c10_paramlist: at most 3 parameters with names of at most 2 characters; bounded code models of std::string and std::vector, exact reference counting for std::shared_ptr; counterexamples replay natively). Reverse iterators are not under contract. Histories are covered by induction over operations: every operation preserves the representation invariant (well-formed storage, unique keys) that the next one requires.",
